@@ -231,6 +231,12 @@ def job(arg):
                'undef': r['undef'], 'findings': r['findings'], 'broken': r['broken'], 'hash': hashlib.sha1(src).hexdigest()[:16],
                'features': sorted(features(prog)) if r['welldef'] else [], 'src': src.decode('latin-1'), 'inputs': inputs,
                'spec': r['spec'], 'isa': r['isa'], 'unsupported': [s['detail'] for s in (r['spec'] or []) if s['kind'] == 'undef' and s['reason'] == 'Unsupported']}
+        # X reader cross-check (C09's XFront.front, a Coq model of the real lexer+parser, as the reader of the program text):
+        # the AST handed to XSem as .sx must be the AST the real parser builds from the text handed to xcmp
+        if not r['broken']:
+            import xfrontcommon
+            if xfrontcommon.reader_sampled(arg):
+                out['xfront'] = xfrontcommon.reader_crosscheck(_T.hv, src, xcommon.to_sx(prog))
         if not r['findings']:
             out['spec'] = (r['spec'] or [])[:1]
             out['isa'] = (r['isa'] or [])[:1]
@@ -617,6 +623,9 @@ def summarise(ck, results, pool, kinds=None):
             for f in r['features']:
                 feats[f] = feats.get(f, 0) + 1
     counts = report(ck, results, pool, kinds)
+    import xfrontcommon
+    nx, samex = xfrontcommon.reader_report(ck, results)      # fills coverage['xfront_reader_crosscheck']; a disagreement is a broken tie
+    ck.log('X reader cross-check (XFront.front vs Python printer/parser): %d compared, %d matching' % (nx, samex))
     ck.cov['programs'] = len(progs_judged)
     ck.cov['disagreements_checked'] = pairs
     ck.cov['distinct_nontrivial'] = len(progs_judged)
